@@ -117,6 +117,8 @@ func (e *Engine) verifyFunc(key string) (u *Unit, err error) {
 			u.assume(env.evalBool(r.X))
 		}
 	}
+	u.curReach = mkBool(true)
+	u.frameInit(ct, env, key)
 	// vacuity guard: the preconditions are satisfiable
 	cov := &Obligation{Name: "cover." + key + ".requires", Kind: "cover", Goal: mkBool(false), NItems: len(u.items), Fn: key, Cover: true,
 		Src: "preconditions and parameter invariants are satisfiable"}
